@@ -5,6 +5,9 @@ VERIF = os.path.dirname(os.path.dirname(os.path.abspath(__file__)))
 ALL = ["C%02d" % i for i in range(1, 21)]
 
 CHECKS = {
+ "C09": dict(engine="S+I", technique="stateless model checking of the real log path (LogPrintfFunc -> Sink/AsyncSink -> AsyncPipe) under the cooperative scheduler with preemption/timed-flush bounds, TSan on every schedule; exhaustive input/configuration sweeps for lengths, filters and file roll-over",
+   text="All interleavings up to the bound of 1-2 logging threads, the pipe's background thread (timed flush as deviation) and disable() are executed with pipe buffers smaller than one record; each sink must hold exactly the expected records, byte for byte, each once, per-thread order kept, complete when disable() returns. Text lengths around 0, the 2 KiB stack buffer and the configured maximum, every level x default/per-module threshold combination on both sink kinds, and file-sink size limits from 1 byte to several records with same-second roll-over are enumerated exhaustively.",
+   note="Trusted: scheduler model incl. virtual clock for timed waits, TSan/ASan; module/function/file strings static as in real use; max length 0 excluded.", ref="2/C09"),
  "C06": dict(engine="H", technique="explicit-state BFS over send/enable/peer/loop histories with bounded injected I/O deviations (short write, EAGAIN, short readv via interposed write/readv) on the real BufferedFd and TcpConnection over a socketpair, byte-exact reference streams; plus exhaustive bulk lane with real kernel back-pressure",
    text="Every history up to the depth of sends, enable/disable, peer reads/writes/close and loop passes, with up to 1 (quick) / 2 (thorough) deviating kernel answers, is executed on both back-ends for several receive thresholds and consumption policies; the peer's bytes must always be a prefix of the sent stream and complete at quiescence, the receive callback must see exactly the unconsumed bytes in order, send-complete only with an empty buffer and everything written, peer close once after all data.",
    note="Trusted: interposed write/readv (legal kernel behaviours only), the std::string reference, ASan; bounds: <=14 sent / <=9 received bytes per history, depth 6/7; bulk lane 64 KiB-2 MiB.", ref="2/C06"),
